@@ -9,10 +9,34 @@ variable {E : Type} [DecidableEq E]
 
 /-! ### shape of a turn; what it preserves -/
 
+theorem purgeTurn_fields (env : Env) (s : State E) :
+    (purgeTurn env s).ess = s.ess ∧ (purgeTurn env s).noticed = s.noticed ∧ (purgeTurn env s).marked = s.marked ∧
+    (purgeTurn env s).blocked = s.blocked ∧ (purgeTurn env s).gone = s.gone ∧ (purgeTurn env s).base = s.base ∧
+    (purgeTurn env s).fullyHandled = s.fullyHandled ∧ (purgeTurn env s).resumed = s.resumed := by
+  rcases purgeTurn_cases env s with ⟨_, h⟩ | ⟨_, h⟩ <;> rw [h] <;> exact ⟨rfl, rfl, rfl, rfl, rfl, rfl, rfl, rfl⟩
+
+theorem purgeTurn_causeOf (env : Env) (s : State E) : causeOf (purgeTurn env s) = causeOf s := by
+  obtain ⟨h1, h2, h3, h4, _, h6, h7, _⟩ := purgeTurn_fields env s
+  exact causeOf_congr s _ h6 h1 h2 h7 h3 h4
+
+theorem purgeTurn_uniform (env : Env) (s : State E) (hu : UniformOn env.owned s.P) :
+    UniformOn env.owned (purgeTurn env s).P := by
+  rcases purgeTurn_cases env s with ⟨_, h⟩ | ⟨_, h⟩ <;> rw [h]
+  · exact purged_uniform env s
+  · exact hu
+
+theorem remState_uniform (env : Env) (s : State E) (g : Bool) (hu : UniformOn env.owned s.P) :
+    UniformOn env.owned (remState env s g).P := by
+  show UniformOn env.owned (if (!env.prematch && leftovers env s) = true then purged env s else s.P)
+  split
+  · exact purged_uniform env s
+  · exact hu
+
 theorem loopStep_form (env : Env) (s : State E) :
     loopStep env s = s ∨ (∃ w, loopStep env s = { s with pending := false, writes := w }) ∨
     loopStep env s = addState env s ∨
     (∃ g, loopStep env s = remState env s g) ∨ loopStep env s = releaseTurn env s ∨
+    loopStep env s = purgeTurn env s ∨
     ∃ now' pend w, loopStep env s = nextState env s now' pend w := by
   by_cases hp : s.pending = true
   rotate_left
@@ -20,23 +44,28 @@ theorem loopStep_form (env : Env) (s : State E) :
   by_cases hg : s.gone = true
   · right; left; exact ⟨s.writes, by unfold loopStep; simp [hp, hg]⟩
   have hg' : s.gone = false := by simpa using hg
-  rcases turn_cases env s hp hg' with ⟨_, _, _, _, h⟩ | ⟨_, _, h⟩ | ⟨_, _, h⟩ | ⟨_, _, _, _, _, h⟩ | ⟨_, _, _, _, h⟩
+  rcases turn_cases env s hp hg' with ⟨_, _, _, _, h⟩ | ⟨_, _, h⟩ | ⟨_, _, h⟩ | ⟨_, _, _, _, _, h⟩ | ⟨_, _, _, _, h⟩ |
+    ⟨_, _, _, _, _, h⟩
   · exact Or.inr (Or.inr (Or.inl h))
   · exact Or.inr (Or.inr (Or.inr (Or.inl ⟨_, h⟩)))
-  · exact Or.inr (Or.inl ⟨_, h⟩)
+  · exact Or.inr (Or.inr (Or.inr (Or.inr (Or.inr (Or.inl h)))))
   · exact Or.inr (Or.inr (Or.inr (Or.inr (Or.inl h))))
-  · right; right; right; right; right
+  · exact Or.inr (Or.inr (Or.inr (Or.inr (Or.inr (Or.inl h)))))
+  · right; right; right; right; right; right
     rw [h]
     rcases handleTurn_cases env s with ⟨_, h'⟩ | ⟨d, _, _, h'⟩ | ⟨_, _, h'⟩ <;> exact ⟨_, _, _, h'⟩
 
 theorem loopStep_ess (env : Env) (s : State E) : (loopStep env s).ess = s.ess := by
-  rcases loopStep_form env s with h | ⟨_, h⟩ | h | ⟨_, h⟩ | h | ⟨_, _, _, h⟩ <;> rw [h] <;> rfl
+  rcases loopStep_form env s with h | ⟨_, h⟩ | h | ⟨_, h⟩ | h | h | ⟨_, _, _, h⟩ <;> rw [h] <;>
+    first | rfl | exact (purgeTurn_fields env s).1
 
 theorem loopStep_noticed (env : Env) (s : State E) : (loopStep env s).noticed = s.noticed := by
-  rcases loopStep_form env s with h | ⟨_, h⟩ | h | ⟨_, h⟩ | h | ⟨_, _, _, h⟩ <;> rw [h] <;> rfl
+  rcases loopStep_form env s with h | ⟨_, h⟩ | h | ⟨_, h⟩ | h | h | ⟨_, _, _, h⟩ <;> rw [h] <;>
+    first | rfl | exact (purgeTurn_fields env s).2.1
 
 theorem loopStep_marked (env : Env) (s : State E) : (loopStep env s).marked = s.marked := by
-  rcases loopStep_form env s with h | ⟨_, h⟩ | h | ⟨_, h⟩ | h | ⟨_, _, _, h⟩ <;> rw [h] <;> rfl
+  rcases loopStep_form env s with h | ⟨_, h⟩ | h | ⟨_, h⟩ | h | h | ⟨_, _, _, h⟩ <;> rw [h] <;>
+    first | rfl | exact (purgeTurn_fields env s).2.2.1
 
 theorem loopStep_quiescent (env : Env) (s : State E) (h : s.pending = false) : loopStep env s = s := by
   unfold loopStep; simp [h]
@@ -59,12 +88,13 @@ theorem loopStep_uniform (env : Env) (wf : WF env) (s : State E) (hu : UniformOn
   have hsub : ∀ i ∈ (cfgOf env s).selected, i ∈ (cfgOf env s).owned := fun i hi => selOf_sub env wf s i hi
   have hup : UniformOn env.owned (pass env s).P' :=
     uniform_preserved (cfgOf env s) s.P s.now s.now env.exec hsub hu
-  rcases loopStep_form env s with h | ⟨_, h⟩ | h | ⟨_, h⟩ | h | ⟨_, _, _, h⟩ <;> rw [h]
+  rcases loopStep_form env s with h | ⟨_, h⟩ | h | ⟨_, h⟩ | h | h | ⟨_, _, _, h⟩ <;> rw [h]
   · exact hu
   · exact hu
   · exact hu
-  · exact hu
+  · exact remState_uniform env s _ hu
   · exact hup
+  · exact purgeTurn_uniform env s hu
   · exact hup
 
 theorem iter_uniform (env : Env) (wf : WF env) (n : Nat) :
@@ -118,7 +148,14 @@ theorem open_next (env : Env) (s : State E) (hp : s.pending = true) (hg : s.gone
     (ha : adjusting env s = false) (hpm : env.prematch = true)
     (hh : isHandler s = true) (hc : (pass env s).closed = false) :
     ∃ now' w, loopStep env s = nextState env s now' true w := by
-  rcases turn_cases env s hp hg with ⟨h1, _⟩ | ⟨h1, _⟩ | ⟨_, h1, _⟩ | ⟨_, _, _, _, hrel, _⟩ | ⟨_, _, _, _, h⟩
+  rcases turn_cases env s hp hg with ⟨h1, _⟩ | ⟨h1, _⟩ | ⟨_, h1, _⟩ | ⟨_, _, _, _, hrel, _⟩ | ⟨_, _, hm1, hb1, _⟩ |
+    ⟨_, _, _, _, _, h⟩
+  rotate_right 2
+  · -- FREE is no handler reason
+    have := handler_marked_blocked s hh hm1
+    rw [hb1] at this; cases this
+  · obtain ⟨now', w, hx⟩ := open_handle_pending env s hh hc
+    exact ⟨now', w, by rw [h, hx]⟩
   · unfold adjusting at ha; simp [h1] at ha
   · unfold adjusting at ha; simp [h1] at ha
   · rw [hpm] at h1; cases h1
@@ -145,8 +182,6 @@ theorem open_next (env : Env) (s : State E) (hp : s.pending = true) (hg : s.gone
     cases hdl : (pass env s).delays with
     | nil => exact hd hdl
     | cons a as => simp [hdl] at hrel
-  · obtain ⟨now', w, hx⟩ := open_handle_pending env s hh hc
-    exact ⟨now', w, by rw [h, hx]⟩
 
 
 /-- the cause string of the no-op -/
@@ -155,34 +190,82 @@ theorem noop_reason_str (env : Env) (s : State E) (h : (causeOf s).reason = .noo
   show (C14.reasonStr (causeOf s).reason == "noop") = true
   rw [h]; decide
 
-/-- When a turn of the loop ends with no event pending on an object that is not being deleted and that
-    the framework is not blind to: the last-handled state is the essence, nothing initial is
-    outstanding, no owned progress record is left, and the finalizer needs no adjustment. -/
-theorem quiescent_after_step (env : Env) (s : State E) (hp : s.pending = true) (hg : s.gone = false)
-    (hpm : env.prematch = true) (hmk : s.marked = false)
-    (hq : (loopStep env s).pending = false) :
-    (loopStep env s).base = some s.ess ∧
-    ((loopStep env s).noticed && !(loopStep env s).fullyHandled) = false ∧
-    (∀ i ∈ env.owned, (loopStep env s).P i = none) ∧
-    (loopStep env s).gone = false ∧ (loopStep env s).marked = false ∧
-    adjusting env (loopStep env s) = false := by
-  rcases turn_cases env s hp hg with ⟨_, _, _, _, h⟩ | ⟨_, _, h⟩ | ⟨_, h1, _⟩ | ⟨_, _, h1, _⟩ | ⟨ha, _, _, _, h⟩
+/-- without a handler reason, in a turn that reaches `process_changing_cause` and is not FREE, the object is not
+    marked for deletion (a marked object is FREE or, held by the own finalizer, in DELETE) -/
+theorem info_not_free_unmarked (s : State E) (hh : isHandler s = false) (hf : (causeOf s).reason ≠ .free) :
+    s.marked = false := by
+  cases hmk : s.marked
+  · rfl
+  · exfalso
+    cases hbl : s.blocked
+    · exact hf ((free_iff s).2 ⟨hmk, hbl⟩)
+    · have : isHandler s = true := by
+        unfold isHandler causeOf C05.detect C05.detectReason
+        simp [hmk, hbl, C14.reasonStr]
+        decide
+      rw [this] at hh; cases hh
+
+/-- A SETTLED state: what the loop leaves behind when it falls silent on an object that still exists. No progress
+    record of any owned handler; the finalizer needs no adjustment; an object in deletion is not held by the own
+    finalizer; and — for an object the framework sees and that is not in deletion — the last-handled state is the
+    essence and nothing initial is outstanding. (For a blind or FREE object the last-handled state is deliberately
+    left alone: it is what makes the changes made meanwhile arrive as ONE accumulated update later.) -/
+structure Settled (env : Env) (t : State E) : Prop where
+  norec : ∀ i ∈ env.owned, t.P i = none
+  adj : adjusting env t = false
+  here : t.gone = false
+  free : t.marked = true → t.blocked = false
+  handled : env.prematch = true → t.marked = false →
+    t.base = some t.ess ∧ (t.noticed && !t.fullyHandled) = false
+
+/-- When a turn of the loop ends with no event pending on an object that still exists, the state is settled:
+    whatever the object is — seen or blind, in deletion or not. -/
+theorem quiescent_settled (env : Env) (s : State E) (hp : s.pending = true) (hg : s.gone = false)
+    (hq : (loopStep env s).pending = false) (hg2 : (loopStep env s).gone = false) :
+    Settled env (loopStep env s) := by
+  rcases turn_cases env s hp hg with ⟨_, _, _, _, h⟩ | ⟨_, _, h⟩ | ⟨ha, hpm, h⟩ | ⟨_, _, _, _, _, h⟩ |
+    ⟨ha, hpm, hmk, hbl, h⟩ | ⟨ha, hpm, _, hcm, hfr, h⟩
   · rw [h] at hq; cases hq
-  · rw [h, hmk] at hq; cases hq
-  · rw [hpm] at h1; cases h1
-  · rw [hmk] at h1; cases h1
+  · -- the removing turn leaves an event pending unless the object is gone with it
+    rw [h] at hq hg2
+    have h1 : (!(s.marked && !env.foreignFins)) = false := hq
+    have h2 : (s.marked && !env.foreignFins) = false := hg2
+    rw [h2] at h1; cases h1
+  · -- blind: quiescent only with nothing to purge
+    rw [h] at hq ⊢
+    rcases purgeTurn_cases env s with ⟨_, h'⟩ | ⟨hl, h'⟩
+    · rw [h'] at hq; cases hq
+    · rw [h']
+      refine ⟨norec_of_leftovers_false env s hl, (adjusting_congr env s _ rfl rfl).trans ha, hg, ?_, ?_⟩
+      · intro _
+        show s.blocked = false
+        rw [adjusting_eq] at ha
+        simp [hpm] at ha
+        exact ha
+      · intro h1; rw [hpm] at h1; cases h1
+  · rw [h] at hq hg2
+    have h1 : env.foreignFins = false := hq
+    have h2 : (!env.foreignFins) = false := hg2
+    rw [h1] at h2; cases h2
+  · -- FREE: quiescent only with nothing to purge
+    rw [h] at hq ⊢
+    rcases purgeTurn_cases env s with ⟨_, h'⟩ | ⟨hl, h'⟩
+    · rw [h'] at hq; cases hq
+    · rw [h']
+      refine ⟨norec_of_leftovers_false env s hl, (adjusting_congr env s _ rfl rfl).trans ha, hg, fun _ => hbl, ?_⟩
+      intro _ h2
+      have : s.marked = false := h2
+      rw [hmk] at this; cases this
   · have hadjN : ∀ now' pend w, adjusting env (nextState env s now' pend w) = false := by
       intro now' pend w
-      rw [adjusting_eq]
-      show ((env.prematch && env.changeReq && !s.blocked && !s.marked) ||
-            (!(env.prematch && env.changeReq) && s.blocked)) = false
-      rw [← adjusting_eq]; exact ha
+      exact (adjusting_congr env s _ rfl rfl).trans ha
     rcases handleTurn_cases env s with ⟨_, h'⟩ | ⟨d, _, _, h'⟩ | ⟨hch, hm, h'⟩
     · rw [h, h'] at hq; cases hq
     · rw [h, h'] at hq; cases hq
     · rw [h, h']
       by_cases hc : (pass env s).closed = true
-      · have hh : isHandler s = true := by
+      · have hmk := hcm hc
+        have hh : isHandler s = true := by
           cases hh : isHandler s
           · have := (cycle_not_handler_reason_invoked (cfgOf env s) s.P s.now s.now env.exec hh).2
             unfold pass at hc
@@ -192,12 +275,18 @@ theorem quiescent_after_step (env : Env) (s : State E) (hp : s.pending = true) (
           cases he : (cfgOf env s).selected.isEmpty
           · exact closed_purges (cfgOf env s) s.P s.now s.now env.exec hh he hc
           · exact (closed_purges_skip (cfgOf env s) s.P s.now s.now env.exec hh he).2
-        exact ⟨by simp [nextState, hc], by simp [nextState, hc], hnone, hg, hmk, hadjN _ _ _⟩
+        refine ⟨hnone, hadjN _ _ _, hg, ?_, ?_⟩
+        · intro h1
+          have : s.marked = true := h1
+          rw [hmk] at this; cases this
+        · intro _ _
+          exact ⟨by simp [nextState, hc], by simp [nextState, hc]⟩
       · have hc' : (pass env s).closed = false := by simpa using hc
         by_cases hh : isHandler s = true
         · obtain ⟨now', w, hx⟩ := open_handle_pending env s hh hc'
           rw [h, hx] at hq; cases hq
         · have hh' : isHandler s = false := by simpa using hh
+          have hmk := info_not_free_unmarked s hh' hfr
           obtain ⟨hr, h1, h2⟩ := not_handler_noop s hmk hh'
           have hr' : handlerReasons.contains (cfgOf env s).reason = false := hh'
           have hnone : ∀ i ∈ env.owned, (pass env s).P' i = none := by
@@ -205,31 +294,46 @@ theorem quiescent_after_step (env : Env) (s : State E) (hp : s.pending = true) (
             unfold pass
             rw [cycle_not_handler_reason _ _ _ _ _ hr']
             simp [noop_reason_str env s hr, purge, show i ∈ (cfgOf env s).owned from hi]
-          exact ⟨by simp [nextState, hc', h1], by simp [nextState, hc', h2], hnone, hg, hmk, hadjN _ _ _⟩
+          refine ⟨hnone, hadjN _ _ _, hg, ?_, ?_⟩
+          · intro h3
+            have : s.marked = true := h3
+            rw [hmk] at this; cases this
+          · intro _ _
+            exact ⟨by simp [nextState, hc', h1], by simp [nextState, hc', h2]⟩
 
-/-- in a settled state — last-handled = essence, nothing initial outstanding, no owned record, not being
-    deleted, finalizer as needed — a (re-)delivered event is processed without any write and leaves
-    nothing pending -/
-theorem settled_event_no_write (env : Env) (t : State E) (hb : t.base = some t.ess)
-    (hi : (t.noticed && !t.fullyHandled) = false) (hn : ∀ i ∈ env.owned, t.P i = none)
-    (hg : t.gone = false) (hmk : t.marked = false) (ha : adjusting env t = false) :
+/-- in a settled state a (re-)delivered event is processed without any write (but the constant part of the patch)
+    and leaves nothing pending; records and last-handled state stay as they are -/
+theorem settled_event_no_write (env : Env) (t : State E) (hs : Settled env t) :
     (loopStep env { t with pending := true }).writes = t.writes + cp env ∧
     (loopStep env { t with pending := true }).pending = false ∧
     (loopStep env { t with pending := true }).base = t.base ∧
     ∀ i, (loopStep env { t with pending := true }).P i = t.P i := by
-  have ha' : adjusting env ({ t with pending := true } : State E) = false := by
-    rw [adjusting_eq]
-    show ((env.prematch && env.changeReq && !t.blocked && !t.marked) ||
-          (!(env.prematch && env.changeReq) && t.blocked)) = false
-    rw [← adjusting_eq]; exact ha
+  obtain ⟨hn, ha, hg, hfree, hhand⟩ := hs
+  have ha' : adjusting env ({ t with pending := true } : State E) = false :=
+    (adjusting_congr env t _ rfl rfl).trans ha
+  have hl : leftovers env ({ t with pending := true } : State E) = false :=
+    leftovers_false_of_norec env _ hn
+  have hpurge : purgeTurn env ({ t with pending := true } : State E) =
+      { t with pending := false, writes := t.writes + cp env } := by
+    rcases purgeTurn_cases env ({ t with pending := true } : State E) with ⟨h1, _⟩ | ⟨_, h1⟩
+    · rw [hl] at h1; cases h1
+    · exact h1
   rcases turn_cases env ({ t with pending := true } : State E) rfl hg with
-    ⟨h1, _⟩ | ⟨h1, _⟩ | ⟨_, _, h⟩ | ⟨_, _, h1, _⟩ | ⟨_, _, _, _, h⟩
+    ⟨h1, _⟩ | ⟨h1, _⟩ | ⟨_, _, h⟩ | ⟨_, _, h1, h2, _⟩ | ⟨_, _, _, _, h⟩ | ⟨_, hpm, _, _, hfr, h⟩
   · unfold adjusting at ha'; simp [h1] at ha'
   · unfold adjusting at ha'; simp [h1] at ha'
-  · rw [h]; exact ⟨rfl, rfl, rfl, fun _ => rfl⟩
-  · have : t.marked = true := h1
-    rw [hmk] at this; cases this
-  · have hh : isHandler ({ t with pending := true } : State E) = false := by
+  · rw [h, hpurge]; exact ⟨rfl, rfl, rfl, fun _ => rfl⟩
+  · have := hfree h1
+    have h2' : t.blocked = true := h2
+    rw [this] at h2'; cases h2'
+  · rw [h, hpurge]; exact ⟨rfl, rfl, rfl, fun _ => rfl⟩
+  · have hmk : t.marked = false := by
+      cases hmk : t.marked
+      · rfl
+      · exfalso
+        exact hfr ((free_iff _).2 ⟨hmk, hfree hmk⟩)
+    obtain ⟨hb, hi⟩ := hhand hpm hmk
+    have hh : isHandler ({ t with pending := true } : State E) = false := by
       unfold isHandler causeOf
       simp [hb, hi, hmk, C05.detect, C05.detectReason, C14.reasonStr]
       decide
@@ -258,7 +362,8 @@ theorem marked_step (env : Env) (s : State E) (hp : s.pending = true) (hg : s.go
     ((loopStep env s).pending = true ∧ (loopStep env s).gone = false ∧ (loopStep env s).marked = true ∧
       (loopStep env s).blocked = true) ∨
     ((loopStep env s).blocked = false ∧ (loopStep env s).gone = !env.foreignFins) := by
-  rcases turn_cases env s hp hg with ⟨_, h1, _⟩ | ⟨_, _, h⟩ | ⟨ha, hpm, _⟩ | ⟨_, _, _, _, _, h⟩ | ⟨_, _, hrel, hcm, h⟩
+  rcases turn_cases env s hp hg with ⟨_, h1, _⟩ | ⟨_, _, h⟩ | ⟨ha, hpm, _⟩ | ⟨_, _, _, _, _, h⟩ | ⟨_, _, _, h1, _⟩ |
+    ⟨_, _, hrel, hcm, _, h⟩
   · rw [hmk] at h1; cases h1
   · right; rw [h]; simp [remState, hmk]
   · -- blind and blocked: the finalizer is unneeded, so this turn would have removed it
@@ -266,6 +371,7 @@ theorem marked_step (env : Env) (s : State E) (hp : s.pending = true) (hg : s.go
     rw [adjusting_eq] at ha
     simp [hpm, hbl] at ha
   · right; rw [h]; simp [releaseTurn]
+  · rw [hbl] at h1; cases h1
   · left
     have hh : isHandler s = true := by
       unfold isHandler causeOf C05.detect C05.detectReason
@@ -278,6 +384,70 @@ theorem marked_step (env : Env) (s : State E) (hp : s.pending = true) (hg : s.go
     obtain ⟨now', w, hx⟩ := open_handle_pending env s hh hc
     rw [h, hx]
     exact ⟨rfl, hg, hmk, hbl⟩
+
+/-- a turn on an object in deletion that the own finalizer does not hold (FREE) touches neither the finalizer nor
+    the object's existence -/
+theorem free_step (env : Env) (t : State E) (hb : t.blocked = false) (hm : t.marked = true) :
+    (loopStep env t).blocked = false ∧ (loopStep env t).gone = t.gone ∧ (loopStep env t).marked = true := by
+  refine ⟨?_, ?_, by rw [loopStep_marked]; exact hm⟩
+  all_goals
+    by_cases hp : t.pending = true
+    rotate_left
+    · rw [loopStep_quiescent env t (by simpa using hp)]; try exact hb
+    by_cases hg : t.gone = true
+    · have : loopStep env t = { t with pending := false } := by unfold loopStep; simp [hp, hg]
+      rw [this]; try exact hb
+    rcases turn_cases env t hp (by simpa using hg) with ⟨_, h1, _⟩ | ⟨_, h1, _⟩ | ⟨_, _, h⟩ | ⟨_, _, _, h1, _⟩ |
+      ⟨_, _, _, _, h⟩ | ⟨_, _, _, _, hfr, _⟩
+    · rw [hm] at h1; cases h1
+    · rw [hb] at h1; cases h1
+    · rw [h]
+      first
+        | exact (purgeTurn_fields env t).2.2.2.1.trans hb
+        | exact (purgeTurn_fields env t).2.2.2.2.1
+    · rw [hb] at h1; cases h1
+    · rw [h]
+      first
+        | exact (purgeTurn_fields env t).2.2.2.1.trans hb
+        | exact (purgeTurn_fields env t).2.2.2.2.1
+    · exact absurd ((free_iff t).2 ⟨hm, hb⟩) hfr
+
+/-- what the turn without handlers (blind, FREE) does: the last-handled state is left alone; afterwards no owned
+    record is on the object; with leftovers one PATCH goes out and its echo is pending, without them nothing is
+    written (but the constant part of the patch) and nothing is pending -/
+theorem purgeTurn_spec (env : Env) (s : State E) :
+    (purgeTurn env s).base = s.base ∧ (∀ i ∈ env.owned, (purgeTurn env s).P i = none) ∧
+    (leftovers env s = true → (purgeTurn env s).pending = true ∧ (purgeTurn env s).writes = s.writes + 1) ∧
+    (leftovers env s = false → (purgeTurn env s).pending = false ∧
+      (purgeTurn env s).writes = s.writes + cp env ∧ (purgeTurn env s).P = s.P) := by
+  rcases purgeTurn_cases env s with ⟨hl, h⟩ | ⟨hl, h⟩ <;> rw [h]
+  · exact ⟨rfl, fun i hi => purged_owned env s hi, fun _ => ⟨rfl, rfl⟩, (fun h' => by rw [hl] at h'; cases h')⟩
+  · exact ⟨rfl, norec_of_leftovers_false env s hl, (fun h' => by rw [hl] at h'; cases h'), fun _ => ⟨rfl, rfl, rfl⟩⟩
+
+/-- an object that is not marked for deletion does not go away by a turn of the loop -/
+theorem unmarked_stays (env : Env) (s : State E) (hg : s.gone = false) (hmk : s.marked = false) :
+    (loopStep env s).gone = false := by
+  by_cases hp : s.pending = true
+  rotate_left
+  · rw [loopStep_quiescent env s (by simpa using hp)]; exact hg
+  rcases turn_cases env s hp hg with ⟨_, _, _, _, h⟩ | ⟨_, _, h⟩ | ⟨_, _, h⟩ | ⟨_, _, h1, _⟩ | ⟨_, _, h1, _⟩ |
+    ⟨_, _, _, _, _, h⟩
+  · rw [h]; exact hg
+  · rw [h]; simp [remState, hmk]
+  · rw [h]; exact (purgeTurn_fields env s).2.2.2.2.1.trans hg
+  · rw [hmk] at h1; cases h1
+  · rw [hmk] at h1; cases h1
+  · rw [h]
+    rcases handleTurn_cases env s with ⟨_, h'⟩ | ⟨d, _, _, h'⟩ | ⟨_, _, h'⟩ <;> rw [h'] <;> exact hg
+
+theorem iter_unmarked_stays (env : Env) (n : Nat) :
+    ∀ s : State E, s.gone = false → s.marked = false → (iter env n s).gone = false := by
+  induction n with
+  | zero => intro s h _; exact h
+  | succ n ih =>
+    intro s hg hmk
+    simp only [iter]
+    exact ih _ (unmarked_stays env s hg hmk) (by rw [loopStep_marked]; exact hmk)
 
 /-! ### once closed, closed: informational causes stay -/
 
@@ -297,7 +467,8 @@ theorem info_stays (env : Env) (s : State E) (hh : isHandler s = false) : isHand
   · have : loopStep env s = { s with pending := false } := by unfold loopStep; simp [hp, hg]
     rw [this]; exact hh
   have hg' : s.gone = false := by simpa using hg
-  rcases turn_cases env s hp hg' with ⟨_, hm, _, _, h⟩ | ⟨_, _, h⟩ | ⟨_, _, h⟩ | ⟨_, _, hm, _, _, h⟩ | ⟨_, _, _, _, h⟩
+  rcases turn_cases env s hp hg' with ⟨_, hm, _, _, h⟩ | ⟨_, _, h⟩ | ⟨_, _, h⟩ | ⟨_, _, hm, _, _, h⟩ | ⟨_, _, _, _, h⟩ |
+    ⟨_, _, _, _, _, h⟩
   · have := causeOf_unmarked s (addState env s) rfl rfl rfl rfl hm hm
     rw [h]; unfold isHandler; rw [this]; exact hh
   · rw [h]
@@ -307,11 +478,12 @@ theorem info_stays (env : Env) (s : State E) (hh : isHandler s = false) : isHand
     · unfold isHandler causeOf C05.detect C05.detectReason
       simp [remState, hm, C14.reasonStr]
       decide
-  · rw [h]; exact hh
+  · rw [h]; unfold isHandler; rw [purgeTurn_causeOf]; exact hh
   · rw [h]
     unfold isHandler causeOf C05.detect C05.detectReason
     simp [releaseTurn, nextState, hm, C14.reasonStr]
     decide
+  · rw [h]; unfold isHandler; rw [purgeTurn_causeOf]; exact hh
   · rw [h]
     rcases handleTurn_cases env s with ⟨_, h'⟩ | ⟨d, _, _, h'⟩ | ⟨_, _, h'⟩ <;>
       rw [h', isHandler_nextState env s hcl] <;> exact hh
@@ -319,6 +491,11 @@ theorem info_stays (env : Env) (s : State E) (hh : isHandler s = false) : isHand
 theorem gone_stays (env : Env) (s : State E) (hg : s.gone = true) : (loopStep env s).gone = true := by
   unfold loopStep
   by_cases hp : s.pending = true <;> simp [hp, hg]
+
+theorem iter_gone (env : Env) (n : Nat) : ∀ s : State E, s.gone = true → (iter env n s).gone = true := by
+  induction n with
+  | zero => intro s h; exact h
+  | succ n ih => intro s h; simp only [iter]; exact ih _ (gone_stays env s h)
 
 theorem closings_zero (env : Env) (n : Nat) :
     ∀ s : State E, (s.gone = true ∨ isHandler s = false) → closings env n s = 0 := by
@@ -345,7 +522,8 @@ theorem closings_zero (env : Env) (n : Nat) :
 theorem after_closing (env : Env) (s : State E) (hp : s.pending = true) (hg : s.gone = false)
     (hrun : (decisionOf env s).handlersRun = true) (hc : (pass env s).closed = true) :
     (loopStep env s).gone = true ∨ isHandler (loopStep env s) = false := by
-  rcases turn_cases env s hp hg with ⟨h1, _⟩ | ⟨h1, _⟩ | ⟨_, h1, _⟩ | ⟨_, _, hmk, _, _, h⟩ | ⟨_, _, _, hcm, h⟩
+  rcases turn_cases env s hp hg with ⟨h1, _⟩ | ⟨h1, _⟩ | ⟨_, h1, _⟩ | ⟨_, _, hmk, _, _, h⟩ | ⟨_, _, hm1, hb1, _⟩ |
+    ⟨_, _, _, hcm, _, h⟩
   · rw [dec_run, h1] at hrun; simp at hrun
   · rw [dec_run, h1] at hrun; simp at hrun
   · rw [dec_run, h1] at hrun; simp at hrun
@@ -354,6 +532,16 @@ theorem after_closing (env : Env) (s : State E) (hp : s.pending = true) (hg : s.
     unfold isHandler causeOf C05.detect C05.detectReason
     simp [releaseTurn, nextState, hmk, C14.reasonStr]
     decide
+  · -- FREE is no handler reason: its pass closes nothing
+    exfalso
+    have hh : isHandler s = false := by
+      cases hh : isHandler s
+      · rfl
+      · have := handler_marked_blocked s hh hm1
+        rw [hb1] at this; cases this
+    have := (cycle_not_handler_reason_invoked (cfgOf env s) s.P s.now s.now env.exec hh).2
+    unfold pass at hc
+    rw [this] at hc; cases hc
   · right
     have hmk := hcm hc
     rw [h]
